@@ -37,7 +37,7 @@ from vgi_rpc.rpc import AnnotatedBatch
 
 PROPERTY = "C38"
 LEVEL = "fault_enumeration"
-QUICK_RUNS = 3000
+QUICK_RUNS = 2500
 THOROUGH_RUNS = 400_000
 QUICK_BUDGET_S = 90
 THOROUGH_BUDGET_S = 1500
